@@ -316,7 +316,7 @@ Qed.
 
 (* ------------------------------------------------------------ regression: the guard
    orders of the pinned tree (before the fix: commits ff0b1b4, ca5c301, 614d201,
-   2b295a9, 32dabad, c5dff22), transcribed by hand; each lets a length mismatch
+   2b295a9, 32dabad, c5dff22, f977178), transcribed by hand; each lets a length mismatch
    through as an early Ok. *)
 Definition greedy_guards_pinned : list guard :=
   [ GFillOk (CPartCountLt2 PcParam); GLenMismatch InWeights LPartition (LInput InWeights); GCompute ].
@@ -338,9 +338,9 @@ Definition fm_guards_pinned : list guard :=
 Definition arcswap_guards_pinned : list guard :=
   [ GEarlyOk (CEmpty LPartition); GLenMismatch InWeights LPartition (LInput InWeights);
     GLenMismatch InAdjacency LPartition (LInput InAdjacency); GPartCountMaxId; GCompute ].
-(* Rib at /repo HEAD (a3a7500): the oriented bounding box is built, and Ok returned
-   when there is no point, before rcb() compares the lengths *)
-Definition rib_guards_head : list guard :=
+(* Rib before fix f977178 (found while building this property): the oriented bounding box was
+   built, and Ok(()) returned when there is no point, before rcb() compared the lengths *)
+Definition rib_guards_before_f977178 : list guard :=
   [ GEarlyOk (CEmpty (LInput InPoints)); GLenMismatch InWeights LPartition (LInput InWeights);
     GLenMismatch InPoints LPartition (LInput InPoints); GCompute ].
 
@@ -364,6 +364,6 @@ Proof. exists (mk_shape [WPos; WPos] 0 2 0 0), []. split; [cbn; lia|reflexivity]
 Lemma arcswap_pinned_refuted : exists sh p,
   sh_adj sh <> length p /\ run_guards arcswap_guards_pinned sh p = (OEarlyOk, p).
 Proof. exists (mk_shape [] 0 2 0 0), []. split; [cbn; lia|reflexivity]. Qed.
-Lemma rib_head_refuted : exists sh p,
-  sh_points sh <> length p /\ run_guards rib_guards_head sh p = (OEarlyOk, p).
+Lemma rib_before_f977178_refuted : exists sh p,
+  sh_points sh <> length p /\ run_guards rib_guards_before_f977178 sh p = (OEarlyOk, p).
 Proof. exists (mk_shape [WPos; WPos; WPos] 0 0 0 0), [7; 7; 7]%N. split; [cbn; lia|reflexivity]. Qed.
